@@ -8,11 +8,19 @@
 //!        case (substituted on the way out, substituted back in every reply);
 //!        <class> = what the generator did to this request: canon | same (JSON differs from the
 //!        canonical request, typed value and call mode do not) | dev (deviates) | other
+//!        "@cidK+<how>" is a RESPELLING of that id which the service never handed out: zero ("0" + id),
+//!        zeros ("000" + id), plus ("+" + id), upper (hex digits in upper case), spb / spa (a space
+//!        before / after), junk (id + "g")
+//!   (race <n> <rounds>)  per round: Start on a control connection, then n connections send the SAME
+//!        canonical step under that one client id at the same moment (barrier), for Test01..Test10;
+//!        Test11 once; then End raced as well
 //!   (conc <n>)         n threads, each a canonical client on its own connection, all at once
 //!   (realclient <n>)   n processes `varlink-certification --client` against the server, all at once
 //!
 //! Observation:
 //!   cert:       (obs (r <closed t|f> <reply>*)*)   reply = (rep <continues> <error> <params>)
+//!   race:       (obs (x <k> (round (step <pos> <r>*)*))*)   the outcomes of one race sorted (who wins is
+//!               not observable), equal consecutive rounds run-length encoded, the id printed as "@cid0"
 //!   conc:       (obs (client (r ...)*)*)           in thread order, thread c's id printed as "@cidc"
 //!   realclient: (obs (exit <code>)*)
 //! The text of an InvalidParameter reply produced from a serde error is printed as "*".
@@ -161,36 +169,77 @@ fn exchange(c: &mut Conn, req: &[u8], nonce: usize) -> (Vec<Value>, End) {
     }
 }
 
-fn subst_out(s: &Sx, ids: &[String]) -> Sx {
+pub const RESPELLINGS: &[&str] = &["zero", "zeros", "plus", "upper", "spb", "spa", "junk"];
+
+/// a string the service never handed out that a sloppy comparison might take for `id`
+fn respell(id: &str, how: &str) -> String {
+    let r = match how {
+        "zero" => format!("0{}", id),
+        "zeros" => format!("000{}", id),
+        "plus" => format!("+{}", id),
+        "upper" => id.to_uppercase(),
+        "spb" => format!(" {}", id),
+        "spa" => format!("{} ", id),
+        "junk" => format!("{}g", id),
+        _ => format!("{}?", id),
+    };
+    // an id without letters has no other case: fall back to another respelling, never to the id itself
+    if r == id {
+        format!("0{}", id)
+    } else {
+        r
+    }
+}
+
+/// placeholders -> real strings; `sent` remembers what each placeholder became
+fn subst_out(s: &Sx, ids: &[String], sent: &mut Vec<(String, String)>) -> Sx {
     match s {
         Sx::Atom(_) => {
             if let Some(t) = s.as_str() {
-                if let Some(k) = t.strip_prefix("@cid").and_then(|k| k.parse::<usize>().ok()) {
-                    if let Some(id) = ids.get(k) {
-                        return sx::xs(id);
+                if let Some(rest) = t.strip_prefix("@cid") {
+                    let (k, how) = match rest.split_once('+') {
+                        Some((k, how)) => (k, Some(how)),
+                        None => (rest, None),
+                    };
+                    if let Some(id) = k.parse::<usize>().ok().and_then(|k| ids.get(k)) {
+                        return match how {
+                            None => sx::xs(id),
+                            Some(how) => {
+                                let real = respell(id, how);
+                                if !sent.iter().any(|(r, _)| r == &real) {
+                                    sent.push((real.clone(), t.clone()));
+                                }
+                                sx::xs(&real)
+                            }
+                        };
                     }
                 }
             }
             s.clone()
         }
-        Sx::List(l) => Sx::List(l.iter().map(|x| subst_out(x, ids)).collect()),
+        Sx::List(l) => Sx::List(l.iter().map(|x| subst_out(x, ids, sent)).collect()),
     }
 }
 
-fn subst_back(v: &Value, ids: &[String]) -> Value {
+fn subst_back(v: &Value, ids: &[String], sent: &[(String, String)]) -> Value {
     match v {
-        Value::String(s) => match ids.iter().position(|i| i == s) {
-            Some(k) => Value::String(format!("@cid{}", k)),
-            None => v.clone(),
-        },
-        Value::Array(a) => Value::Array(a.iter().map(|x| subst_back(x, ids)).collect()),
-        Value::Object(o) => Value::Object(o.iter().map(|(k, x)| (k.clone(), subst_back(x, ids))).collect()),
+        Value::String(s) => {
+            if let Some((_, ph)) = sent.iter().find(|(r, _)| r == s) {
+                return Value::String(ph.clone());
+            }
+            match ids.iter().position(|i| i == s) {
+                Some(k) => Value::String(format!("@cid{}", k)),
+                None => v.clone(),
+            }
+        }
+        Value::Array(a) => Value::Array(a.iter().map(|x| subst_back(x, ids, sent)).collect()),
+        Value::Object(o) => Value::Object(o.iter().map(|(k, x)| (k.clone(), subst_back(x, ids, sent))).collect()),
         _ => v.clone(),
     }
 }
 
-fn reply_sx(v: &Value, ids: &[String]) -> Sx {
-    let v = subst_back(v, ids);
+fn reply_sx(v: &Value, ids: &[String], sent: &[(String, String)]) -> Sx {
+    let v = subst_back(v, ids, sent);
     let cont = v.get("continues").and_then(|c| c.as_bool());
     let err = v.get("error").and_then(|e| e.as_str());
     let mut params = v.get("parameters").cloned();
@@ -225,11 +274,12 @@ fn run_cert(qs: &[Sx]) -> Sx {
     let path = server_path();
     let mut conns: std::collections::HashMap<usize, Conn> = std::collections::HashMap::new();
     let mut ids: Vec<String> = Vec::new();
+    let mut sent: Vec<(String, String)> = Vec::new();
     let mut out = vec![];
     for (n, q) in qs.iter().enumerate() {
         let ql = q.as_list().expect("q");
         let ci = ql[1].as_usize().expect("conn");
-        let tree = subst_out(&ql[3], &ids);
+        let tree = subst_out(&ql[3], &ids, &mut sent);
         let mut text = String::new();
         raw_text(&tree, &mut text).expect("raw json");
         if !conns.contains_key(&ci) {
@@ -252,7 +302,7 @@ fn run_cert(qs: &[Sx]) -> Sx {
             End::Closed => sx::atom("t"),
             End::Timeout => sx::atom("timeout"),
         }];
-        r.extend(replies.iter().map(|v| reply_sx(v, &ids)));
+        r.extend(replies.iter().map(|v| reply_sx(v, &ids, &sent)));
         out.push(sx::tagged("r", r));
         if !matches!(end, End::Open) {
             conns.remove(&ci);
@@ -910,6 +960,31 @@ impl Suite for CertSuite {
             qs.push(canon_q(1, pos, 0)); // client 0's step sent over client 1's connection: ids, not connections, count
             out.push(case(qs, vec!["other-client".into()]));
         }
+        // E2. ids are strings: a respelling of a LIVE id (leading zero(s) or plus, upper-case hex digits,
+        //     blanks, trailing junk) is an id the service never handed out, at every step the live id is at
+        for pos in 1..nsteps {
+            for how in RESPELLINGS {
+                let mut qs = prefix(0, 0, pos);
+                qs.push(q(0, "dev", sx::json(&canon_request(pos, &format!("@cid0+{}", how)))));
+                qs.push(canon_q(0, pos, 0)); // the live client has lost nothing
+                out.push(case(
+                    qs,
+                    vec!["respelt-live-id".into(), format!("step:{}", STEPS[pos]), format!("mut:respelt-{}", how), "class:dev".into()],
+                ));
+            }
+        }
+        // ... also while a second client is live, and on another connection
+        for how in RESPELLINGS {
+            let pos = 1 + r.below(nsteps - 1);
+            let mut qs = prefix(0, 0, pos);
+            qs.extend(prefix(1, 1, 3));
+            qs.push(q(1, "dev", sx::json(&canon_request(pos, &format!("@cid0+{}", how)))));
+            qs.push(q(1, "dev", sx::json(&canon_request(3, &format!("@cid1+{}", how)))));
+            qs.push(canon_q(0, pos, 0));
+            qs.push(canon_q(1, 3, 1));
+            out.push(case(qs, vec!["respelt-live-id".into(), format!("mut:respelt-{}", how), "class:dev".into()]));
+        }
+
         {
             let mut qs = prefix(0, 0, nsteps);
             qs.push(canon_q(0, 12, 0)); // End again: End -> End
@@ -1040,6 +1115,17 @@ impl Suite for CertSuite {
             out.push(case(qs, vec!["frames".into(), format!("mut:{}", kind)]));
         }
 
+        // J. the same step of the same client id on several connections at the same moment: exactly one
+        //    of them may pass (a step is atomic); many rounds, because the window is small
+        let races: &[(usize, usize)] =
+            if ctx.thorough { &[(2, 400), (3, 300), (4, 600), (6, 200), (8, 150)] } else { &[(2, 60), (4, 120), (8, 40)] };
+        for (n, rounds) in races {
+            out.push(Case {
+                input: sx::tagged("race", vec![sx::nat(*n), sx::nat(*rounds)]),
+                tags: vec!["same-step-race".into(), format!("connections:{}", n)],
+            });
+        }
+
         // H. really concurrent clients
         let ns: &[usize] = if ctx.thorough { &[1, 2, 3, 4, 6, 8, 12, 16, 16, 16] } else { &[1, 2, 4, 8, 16] };
         for n in ns {
@@ -1090,7 +1176,7 @@ impl Suite for CertSuite {
                                 r.extend(replies.iter().map(|v| {
                                     let mut padded: Vec<String> = vec![String::from("\u{0}unused"); c];
                                     padded.extend(ids.iter().cloned());
-                                    reply_sx(v, &padded)
+                                    reply_sx(v, &padded, &[])
                                 }));
                                 rs.push(sx::tagged("r", r));
                                 if !matches!(end, End::Open) {
@@ -1103,6 +1189,87 @@ impl Suite for CertSuite {
                     .collect();
                 let rs: Vec<Sx> = hs.into_iter().map(|h| h.join().unwrap_or(sx::atom("thread-panicked"))).collect();
                 sx::tagged("obs", rs)
+            }
+            "race" => {
+                let n = l[1].as_usize().expect("n");
+                let rounds = l[2].as_usize().expect("rounds");
+                let path = server_path();
+                let mut control = connect(&path).expect("control connection");
+                let conns: Vec<Mutex<Conn>> = (0..n).map(|_| Mutex::new(connect(&path).expect("racer connection"))).collect();
+                let mut round_obs: Vec<Sx> = Vec::new();
+                for _ in 0..rounds {
+                    let (replies, _) = exchange(&mut control, serde_json::to_string(&canon_request(0, "")).unwrap().as_bytes(), 0);
+                    let id = match new_id_of(&replies) {
+                        Some(id) => id,
+                        None => {
+                            round_obs.push(sx::tagged("round", vec![sx::atom("start-failed")]));
+                            continue;
+                        }
+                    };
+                    let ids = vec![id.clone()];
+                    let barrier = std::sync::Barrier::new(n);
+                    // per racer: its outcome at each raced position
+                    let per_racer: Vec<Vec<(usize, Sx)>> = std::thread::scope(|sc| {
+                        let hs: Vec<_> = (0..n)
+                            .map(|c| {
+                                let barrier = &barrier;
+                                let conns = &conns;
+                                let ids = &ids;
+                                let id = &id;
+                                sc.spawn(move || {
+                                    let mut conn = conns[c].lock().unwrap();
+                                    let mut outs = vec![];
+                                    for pos in (1..=10).chain(12..=12) {
+                                        if pos == 12 {
+                                            // Test11 (oneway, never answered) once, by racer 0
+                                            barrier.wait();
+                                            if c == 0 {
+                                                let t = serde_json::to_string(&canon_request(11, id)).unwrap();
+                                                let _ = exchange(&mut conn, t.as_bytes(), 1000);
+                                            }
+                                        }
+                                        let text = serde_json::to_string(&canon_request(pos, id)).unwrap();
+                                        barrier.wait();
+                                        let (replies, end) = exchange(&mut conn, text.as_bytes(), pos);
+                                        let mut r = vec![match end {
+                                            End::Open => sx::atom("f"),
+                                            End::Closed => sx::atom("t"),
+                                            End::Timeout => sx::atom("timeout"),
+                                        }];
+                                        r.extend(replies.iter().map(|v| reply_sx(v, ids, &[])));
+                                        outs.push((pos, sx::tagged("r", r)));
+                                    }
+                                    outs
+                                })
+                            })
+                            .collect();
+                        hs.into_iter().map(|h| h.join().unwrap_or_default()).collect()
+                    });
+                    let mut steps = vec![];
+                    for pos in (1..=10).chain(12..=12) {
+                        let mut outs: Vec<Sx> = per_racer
+                            .iter()
+                            .map(|v| v.iter().find(|(p, _)| *p == pos).map(|(_, o)| o.clone()).unwrap_or(sx::atom("missing")))
+                            .collect();
+                        outs.sort_by(|a, b| a.render().cmp(&b.render()));
+                        let mut st = vec![sx::atom("step"), sx::nat(pos)];
+                        st.extend(outs);
+                        steps.push(sx::list(st));
+                    }
+                    round_obs.push(sx::tagged("round", steps));
+                }
+                // run-length encode equal consecutive rounds
+                let mut out: Vec<Sx> = vec![];
+                let mut i = 0;
+                while i < round_obs.len() {
+                    let mut j = i;
+                    while j < round_obs.len() && round_obs[j] == round_obs[i] {
+                        j += 1;
+                    }
+                    out.push(sx::tagged("x", vec![sx::nat(j - i), round_obs[i].clone()]));
+                    i = j;
+                }
+                sx::tagged("obs", out)
             }
             "realclient" => {
                 let n = l[1].as_usize().expect("n");
